@@ -129,7 +129,8 @@ def _tlc(ctx, module, cfg, extra, timeout, tag, workers, javaopts=()):
             shutil.copy(os.path.join(SPEC, f), d)
     tmp = os.path.join(d, 'tmp')
     os.makedirs(tmp, exist_ok=True)
-    cmd = ['java', '-XX:+UseParallelGC', '-Xss64m', f'-Djava.io.tmpdir={tmp}'] + list(javaopts) + \
+    heap = '-Xmx6g' if workers > 1 else '-Xmx2g'       # the JVM default (a quarter of the RAM per process) does not survive parallel checks
+    cmd = ['java', '-XX:+UseParallelGC', heap, '-Xss64m', f'-Djava.io.tmpdir={tmp}'] + list(javaopts) + \
           ['-cp', TLA_CP, 'tlc2.TLC', '-workers', str(workers), '-metadir', os.path.join(d, 'md'),
            '-config', cfg] + extra + [module]
     t = time.time()
